@@ -3,6 +3,16 @@ package main
 import "fmt"
 
 func selftest() int {
-	fmt.Println("selftest: TODO")
-	return 0
+	rc := 0
+	n, err := validateBuildOld()
+	fmt.Printf("selftest: three-section writer model reproduces %d archived fixtures, err=%v\n", n, err)
+	if err != nil || n < 70 {
+		rc = 1
+	}
+	m, total, first := validateDowngrade()
+	fmt.Printf("selftest: 0.5.10 downgrade reproduces %d of %d archived fixtures %s\n", m, total, first)
+	if m != total {
+		rc = 1
+	}
+	return rc
 }
